@@ -94,7 +94,7 @@ def main():
             for f in fs_:
                 if f.endswith(".go"):
                     shutil.copy2(os.path.join(dp, f), os.path.join(WT, rel, f))
-    rc0, out0 = sh("timeout 1500 sh -c %s" % json.dumps(demo), shell=True)
+    rc0, out0 = sh(["timeout", "1500", "sh", "-c", demo])
     log["demo_without_change"] = {"rc": rc0, "tail": out0[-600:]}
     rc, out = sh(["git", "apply", os.path.join(outd, "patch.diff")])
     rebased = False
@@ -108,7 +108,7 @@ def main():
         _, newdiff = sh(["git", "diff"])
     rcb, outb = sh(["go", "build", "./cmd/...", "./internal/..."])
     log["build_with_change"] = {"rc": rcb, "tail": outb[-600:]}
-    rc1, out1 = sh("timeout 1500 sh -c %s" % json.dumps(demo), shell=True)
+    rc1, out1 = sh(["timeout", "1500", "sh", "-c", demo])
     log["demo_with_change"] = {"rc": rc1, "tail": out1[-800:]}
     # remove demo files (everything untracked) but keep the patch
     sh(["git", "clean", "-fdq"])
